@@ -7,8 +7,11 @@ def check(ctx):
     ok = check_property_proofs(ctx, "C02")
     if not ok:
         ctx.violation("proof obligation for C02 no longer checks", {"broken": [n for n, o, _ in ctx.obligations if not o]}, found_input=False)
-    gencore.v1(ctx, 300 if ctx.tier == "quick" else 3000)
+    gencore.v1(ctx, 300 if ctx.tier == "quick" else 3000, which=("opt", "raw"))
     gencore.analyze(ctx, ctx.tier, "tokens")
+    from .C20 import raw_path
+    raw_path(ctx, ctx.tier)          # the same with pest_optimizer = false (un-optimized generator path, counted repetitions as single nodes)
+    ctx.known = [k for k in ctx.known if "optimizer_rewrote_rule" not in k]
     ctx.rule = ("V1: real generator output == Model/Translate.v for the fixed corpus + seeded random grammars (no rustc). Derive corpus: "
                 "hand-written, kind-nesting and random grammars (all rule kinds, every operator incl. counted repetition, insensitive, "
                 "ranges, built-ins, unicode properties, stack operations, WHITESPACE/COMMENT in all combinations) compiled through "
